@@ -449,7 +449,7 @@ def run(ctx):
     for s, lab, spec in names:
         ctx.count("name class: " + lab)
         ctx.count("name pipes=%d" % min(s.count("|"), 4))
-        kind = rng.choice([4, 4, 5])
+        kind = rng.choice([4, 4, 5, 14, 15])      # 14 / 15: loaded from a document {"name": <this spelling>} instead of constructed
         enc = calgen.enc_named(s, kind)
         cases.append((enc, 21, []))
         if spec is not None:
@@ -457,7 +457,7 @@ def run(ctx):
     wcount = (4, 400) if th else (1, 240)
     rng.shuffle(valid)
     for s, spec in valid[:(300 if th else 64 * sc)]:
-        enc = calgen.enc_named(s, rng.choice([4, 4, 5]))
+        enc = calgen.enc_named(s, rng.choice([4, 4, 5, 14, 15]))
         for d0, cnt in windows(rng, *wcount):
             cases.append((enc, 30, [d0, cnt]))
     for s, lab, spec in names:
